@@ -292,3 +292,92 @@ func dumpPipes(root string) string {
 	b.WriteString("]\n")
 	return b.String()
 }
+
+// fan-out functions (closest.splitInput, splitInputN, updown.splitInput): one goroutine that ranges over its input
+// channel and hands every record to one channel per query. Facts: the channels ranged over at the top level of the
+// function (outside any goroutine literal), the goroutine literals, the plain `go f(...)` launches (callee, in a loop),
+// and the element channels made (buffered or not).
+func dumpFanouts(root string) string {
+	files, _ := filepath.Glob(filepath.Join(root, "pkg", "*", "*.go"))
+	sort.Strings(files)
+	var b strings.Builder
+	b.WriteString("-- the fan-out stages: (function, channels ranged over outside goroutine literals, number of goroutine literals,\n")
+	b.WriteString("-- plain go launches (callee, in a loop), per-query channels made (\"0\" unbuffered / \"n\" buffered))\n")
+	b.WriteString("def fanouts : List (String × List String × Nat × List (String × Bool) × List String) := [")
+	first := true
+	for _, f := range files {
+		base := filepath.Base(f)
+		if strings.HasSuffix(base, "_test.go") || strings.HasPrefix(base, "verif_") {
+			continue
+		}
+		fset := token.NewFileSet()
+		af, err := parser.ParseFile(fset, f, nil, 0)
+		if err != nil {
+			continue
+		}
+		for _, d := range af.Decls {
+			fd, ok := d.(*ast.FuncDecl)
+			if !ok || fd.Body == nil || !strings.HasPrefix(fd.Name.Name, "splitInput") {
+				continue
+			}
+			var ranged []string
+			var launches [][2]string
+			var made []string
+			lits := 0
+			var walk func(n ast.Node, inLoop bool)
+			walk = func(n ast.Node, inLoop bool) {
+				ast.Inspect(n, func(m ast.Node) bool {
+					switch s := m.(type) {
+					case *ast.GoStmt:
+						if _, ok := s.Call.Fun.(*ast.FuncLit); ok {
+							lits++
+							return false // what a goroutine literal ranges over is not the function's own loop
+						}
+						launches = append(launches, [2]string{calleeName(s.Call.Fun), fmt.Sprint(inLoop)})
+						return false
+					case *ast.RangeStmt:
+						if n := identName(s.X); n != "" {
+							if tv, ok := s.X.(*ast.Ident); ok && tv.Obj != nil {
+								if fld, ok := tv.Obj.Decl.(*ast.Field); ok {
+									if _, ok := fld.Type.(*ast.ChanType); ok {
+										ranged = append(ranged, n)
+									}
+								}
+							}
+						}
+						walk(s.Body, true)
+						return false
+					case *ast.ForStmt:
+						walk(s.Body, true)
+						return false
+					case *ast.AssignStmt:
+						if len(s.Rhs) == 1 {
+							if call, ok := s.Rhs[0].(*ast.CallExpr); ok && identName(call.Fun) == "make" && len(call.Args) >= 1 {
+								if _, ok := call.Args[0].(*ast.ChanType); ok {
+									k := "0"
+									if len(call.Args) > 1 {
+										k = "n"
+									}
+									made = append(made, k)
+								}
+							}
+						}
+					}
+					return true
+				})
+			}
+			walk(fd.Body, false)
+			if !first {
+				b.WriteString(",")
+			}
+			first = false
+			var ls []string
+			for _, l := range launches {
+				ls = append(ls, fmt.Sprintf("(%q, %s)", l[0], l[1]))
+			}
+			fmt.Fprintf(&b, "\n  (%q, %s, %d, [%s], %s)", filepath.Base(filepath.Dir(f))+"."+fd.Name.Name, leanStrList(ranged), lits, strings.Join(ls, ", "), leanStrList(made))
+		}
+	}
+	b.WriteString("]\n")
+	return b.String()
+}
